@@ -153,10 +153,10 @@ def ins_explore(tier, inst, shard, nshards):
                         work += 1
                         if work % nshards != shard:
                             continue
-                    L = [cands[i] for i in ev]
                     new_pt = copy.deepcopy(pt)
                     n0 = len(new_pt)
-                    new_pt.insert_temperature_interval(L)
+                    arg, L = c08.request_of(ev, cands, new_pt, ref.idx["T"])
+                    new_pt.insert_temperature_interval(arg if isinstance(arg, (list, np.ndarray)) else [arg])
                     res.transitions += 1
                     h2 = hist + [list(ev)]
                     bad = cumulative_identity(ref, new_pt)
@@ -172,7 +172,7 @@ def ins_explore(tier, inst, shard, nshards):
                         res.nt_keys.add(k)
                     res.outcomes.add(jhash([round(float(x), 6) for x in new_pt.data[:, ref.idx["T"]]]))
                     if len(res.samples) < 2:
-                        res.samples.append({"table": desc, "history": [[cands[i] for i in e] for e in h2]})
+                        res.samples.append({"table": desc, "history": [[cands[i] if i >= 0 else "own T column" for i in e] for e in h2]})
                     if not bad and level + 1 < depth:
                         nxt.append((h2, new_pt))
             frontier = nxt
@@ -199,9 +199,9 @@ def ins_replay(case, res: Result):
     ref = c08.Ref(pt)
     cands = c08.candidate_temps(ref.T0, inst)
     for ev in case["history"]:
-        L = [cands[i] for i in ev]
         Tb = pt.data[:, ref.idx["T"]].copy()
-        pt.insert_temperature_interval(L)
+        arg, L = c08.request_of(ev, cands, pt, ref.idx["T"])
+        pt.insert_temperature_interval(arg if isinstance(arg, (list, np.ndarray)) else [arg])
         bad = cumulative_identity(ref, pt)
         if bad:
             res.violate("dH_ne_cumulative_difference_after_insertion", case, bad, "ins:dH_ne_cumulative_difference:" + c08.classify(L, Tb))
